@@ -526,6 +526,8 @@ for _p in ("C04", "C05", "C07", "C08"):
 
 from . import scenarios  # noqa: E402
 
+REGISTRY["C05"]["engines"] = list(REGISTRY["C05"]["engines"]) + [engine_kcompose.run]
+REGISTRY["C05"]["rule"] += " || compose() derivations: every kept node carries the attributes (is_sequential, resource, priority, setup, debug) it has in the original (K-compose)"
 REGISTRY["C12"]["engines"] = list(REGISTRY["C12"]["engines"]) + [engine_khist.run]
 REGISTRY["C12"]["rule"] += " || K-hist: restricted runs (target / exclude / root) with call arguments inside longer histories: executed sets vs the model, and the map the scheduler is handed (arguments bound also for inputs outside the selection) vs Cache.start_map"
 REGISTRY["C13"]["engines"] = list(REGISTRY["C13"]["engines"]) + [engine_khist.run]
